@@ -21,8 +21,9 @@ CRASH_STATUS = 77
 
 
 class Tracer:
-    def __init__(self, watch, crash_at=None, log_fd=None):
+    def __init__(self, watch, crash_at=None, log_fd=None, also=()):
         self.watch = watch.rstrip("/") + "/"
+        self.also = [a.rstrip("/") + "/" for a in also]      # further watched directories (reported with full paths)
         self.crash_at = crash_at
         self.events = []
         self.active = False
@@ -42,7 +43,10 @@ class Tracer:
             os.write(self.log_fd, ("\t".join(ev) + "\n").encode())
 
     def watched(self, p):
-        return isinstance(p, str) and os.path.abspath(p).startswith(self.watch)
+        if not isinstance(p, str):
+            return False
+        p = os.path.abspath(p)
+        return p.startswith(self.watch) or any(p.startswith(a) for a in self.also)
 
     # -- audit hook -------------------------------------------------------------------------------
     def hook(self, ev, args):
@@ -87,6 +91,80 @@ class Tracer:
                 self._wrapped_paths.discard(path)
             return _File(self, f, path)
         return builtins.open(file, mode, *a, **kw)
+
+    def wrap_copy2(self, module):
+        """`module.shutil.copy2` (as used by eups.utils.copyfile): the audit hook reports the `open` of the destination
+        (creat/trunc) before the copy; the copy itself is one call, so its `write` and `close` are reported after it
+        (a kill at either point finds the destination complete)."""
+        real, tr = module.shutil, self
+
+        class _Shutil:
+            def __getattr__(self, n):
+                return getattr(real, n)
+
+            def copy2(self, src, dst, *a, **kw):
+                r = real.copy2(src, dst, *a, **kw)
+                if tr.watched(dst):
+                    tr.effect("write", os.path.abspath(dst))
+                    tr.effect("close", os.path.abspath(dst))
+                return r
+        module.shutil = _Shutil()
+
+    def wrap_atomicfile(self, module):
+        """`eups.utils.AtomicFile` (the product cache): the temporary file is created by tempfile.NamedTemporaryFile
+        (its `open` is reported by the audit hook as creat), then written through a *buffered* file object - write()
+        reaches the disk only at flush/close, and a killed process loses what is still buffered - then os.fsync, close,
+        os.rename.  write / flush / fsync / close become effects (and crash points) here WITHOUT changing the buffering."""
+        tr = self
+        real_tempfile, real_os = module.tempfile, module.os
+
+        class _Buffered:
+            def __init__(self, f):
+                self._f, self._p = f, os.path.abspath(f.name)
+
+            def write(self, x):
+                tr.effect("write", self._p)
+                return self._f.write(x)
+
+            def flush(self):
+                tr.effect("flush", self._p)
+                return self._f.flush()
+
+            def close(self):
+                tr.effect("close", self._p)
+                return self._f.close()
+
+            def fileno(self):
+                return self._f.fileno()
+
+            def __getattr__(self, n):
+                return getattr(self._f, n)
+
+            def __enter__(self):
+                return self
+
+            def __exit__(self, *a):
+                self.close()
+
+        class _Tempfile:
+            def __getattr__(self, n):
+                return getattr(real_tempfile, n)
+
+            def NamedTemporaryFile(self, *a, **kw):
+                f = real_tempfile.NamedTemporaryFile(*a, **kw)
+                return _Buffered(f) if tr.watched(f.name) and tr.active else f
+
+        class _Os:
+            def __getattr__(self, n):
+                return getattr(real_os, n)
+
+            def fsync(self, fd):
+                if isinstance(fd, _Buffered):
+                    tr.effect("fsync", fd._p)
+                    return real_os.fsync(fd.fileno())
+                return real_os.fsync(fd)
+        module.tempfile = _Tempfile()
+        module.os = _Os()
 
     def install(self):
         sys.addaudithook(self.hook)
